@@ -43,6 +43,14 @@ func H_C11_cut() {
 	if instance() == 0 {
 		vassert(sent == 3, "write-error-without-fault")
 	}
+	if ta.cutInside {
+		// part of a header or payload got out: the stream cannot be continued - the mux fails stop, the trunk
+		// is closed and later writes on every connection return an error instead of being read by the peer as
+		// the rest of the cut frame
+		vassert(ta.closed > 0, "trunk-left-open-after-a-cut-frame")
+		_, lerr := a.write(idb, nondetBytes(1))
+		vassert(lerr != nil, "write-after-a-cut-frame-succeeds")
+	}
 	tb := &envTrunk{splitAt: -1, chunks: ta.writes, eofAtEnd: true}
 	orderly := nondetBool()
 	if !orderly {
